@@ -141,8 +141,10 @@ impl AdtSet {
             }
         };
 
-        // Load texture (optional but expected for Cataclysm+)
-        let texture = if let Some(tex_path) = &file_set.tex0 {
+        // Load texture (optional but expected for Cataclysm+).
+        // `SplitFileSet::discover` names every companion path whether or not the file is there;
+        // a companion that does not exist is omitted, as documented.
+        let texture = if let Some(tex_path) = file_set.tex0.as_ref().filter(|p| p.exists()) {
             let tex_data = fs::read(tex_path)?;
             let mut cursor = Cursor::new(tex_data);
             match parse_adt(&mut cursor)? {
@@ -154,7 +156,7 @@ impl AdtSet {
         };
 
         // Load object (optional but expected for Cataclysm+)
-        let object = if let Some(obj_path) = &file_set.obj0 {
+        let object = if let Some(obj_path) = file_set.obj0.as_ref().filter(|p| p.exists()) {
             let obj_data = fs::read(obj_path)?;
             let mut cursor = Cursor::new(obj_data);
             match parse_adt(&mut cursor)? {
@@ -166,7 +168,7 @@ impl AdtSet {
         };
 
         // Load LOD (optional, Legion+)
-        let lod = if let Some(lod_path) = &file_set.lod {
+        let lod = if let Some(lod_path) = file_set.lod.as_ref().filter(|p| p.exists()) {
             let lod_data = fs::read(lod_path)?;
             let mut cursor = Cursor::new(lod_data);
             match parse_adt(&mut cursor)? {
